@@ -22,7 +22,8 @@ REQUIRED = ["Sqfs.C07.resolve_links_terminates", "Sqfs.C07.resolve_ok_targets", 
             "Sqfs.C07.parse_uint_in_bounds_nul", "Sqfs.C07.parse_int_in_bounds", "Sqfs.C07.hex_decode_bounds",
             "Sqfs.C07.base64_decode_bounds", "Sqfs.C07.split_line_total", "Sqfs.C07.read_pax_header_total",
             "Sqfs.C07.sparse_map_new_bounds", "Sqfs.C07.sparse_map_old_bounds", "Sqfs.C07.decode_filename_bounds",
-            "Sqfs.C07.xattr_decode_bounds", "Sqfs.C07.read_header_total", "Sqfs.C07.read_lines_chunking_independent"]
+            "Sqfs.C07.xattr_decode_bounds", "Sqfs.C07.read_header_total", "Sqfs.C07.read_lines_chunking_independent",
+            "Sqfs.C07.tar_member_window_bounded"]
 WITNESS_MODULE = "Sqfs.Witness.C07"
 
 KEY_D12 = "D12:resolve_link:cycle-not-through-start"
@@ -561,6 +562,7 @@ def gen_parser_lines(ctx):
             stream = stream[:rng.randrange(len(stream) + 1)]
         L.append("spold %s %s" % (tok(bytes(h)), tok(stream)))
     L += gen_getline_lines(ctx)
+    L += gen_memberstream_lines(ctx)
     L += gen_readheader_lines(ctx)
     return L
 
@@ -656,6 +658,47 @@ def gen_readheader_lines(ctx):
     limit = max_dir_nesting()
     for n in (limit, limit + 1, 30000):
         add(TL.tar_deep(rng, n, "d"))
+    return L
+
+
+MS_WANTS = [1, 511, 512, 4095, 4096, 4097, 65536, 131071, 131072, 131073, 262144, 524288, 1048575, 1048576]
+MS_BLOCKS = [4096, 131072, 262144, 524288, 1048576]         # the request sizes of tar2sqfs write_file: one data block (-b)
+
+
+def gen_memberstream_lines(ctx):
+    """`ms`: sparse members of every dialect read through the real member stream with every request size a caller can
+    make (tar2sqfs asks for one data block: 4 KiB … 1 MiB): holes of 1 byte … several MiB at the start / in the middle /
+    at the end; what is handed out must be addressable and its size the model's"""
+    rng, q = ctx.rng, ctx.quick()
+    L = []
+    def add(dialect, hole, where, wants, ndata=None):
+        _, _, regions, real = TL.tar_sparse_holes(rng, dialect, hole, where, ndata)
+        L.append("ms %s %s" % (tok(TL.sparse_member(dialect, b"sp.bin", regions, real) + b"\0" * 1024), ",".join(map(str, wants))))
+    for dialect in TL.SPARSE_DIALECTS:
+        for bs in MS_BLOCKS:
+            for where in ("start", "middle", "end"):
+                # a hole larger than the request (and than any plausible hole buffer), one around it, a tiny one
+                add(dialect, rng.choice([2 * bs + rng.randrange(1, 70000), (3 << 20) + rng.randrange(0, 9000)]), where, [bs])
+                add(dialect, bs + rng.choice([-1, 0, 1]), where, [bs])
+            add(dialect, rng.choice([1, 2, 511, 4095, 4096, 4097]), rng.choice(["start", "middle", "end"]), [bs])
+    for _ in range(60 if q else 900):
+        dialect = rng.choice(TL.SPARSE_DIALECTS)
+        hole = rng.choice([1, 7, 4095, 4096, 4097, 8192, 65536, 131072, 131073, 262145, 1 << 20, (1 << 20) + 1, (2 << 20) + 4097,
+                           rng.randrange(1, 5 << 20)])
+        wants = [rng.choice(MS_WANTS) for _ in range(rng.choice([1, 1, 2, 3]))]
+        if min(wants) < 4095 and hole > 300000:
+            wants = [w for w in wants if w >= 4095] or [1048576]      # (one call per byte of a big hole costs the model minutes)
+        add(dialect, hole, rng.choice(["start", "middle", "end"]), wants, ndata=rng.choice([None, None, 1, 9000, 140000]))
+    # a map that does not fit the record: refused by read_header (D22), no member stream at all
+    for dialect in TL.SPARSE_DIALECTS:
+        _, _, regions, real = TL.tar_sparse_holes(rng, dialect, 5000, "middle", 600)
+        m = bytearray(TL.sparse_member(dialect, b"sp.bin", regions, real))
+        hdrs = [i for i in range(0, len(m), 512) if TL.header_ok(m[i:i + 512]) and m[i + 156] in b"0S"]
+        infra(len(hdrs) >= 1, "ms: no member header in a generated sparse archive")
+        i = hdrs[-1]
+        m[i + 124:i + 136] = b"%011o\0" % 512
+        TL.fix_checksum_at(m, i)
+        L.append("ms %s 1048576" % tok(bytes(m[:i + 1024]) + b"\0" * 1024))
     return L
 
 
@@ -755,7 +798,7 @@ def parse_harness(ctx):
                   libs=[str(lib)] + vlib.CODEC_LIBS + (["-lselinux"] if os.path.exists("/usr/include/selinux/selinux.h") else []))
 
 
-PARSE_OPS = ("num", "puint", "pint", "hex", "b64", "split", "dfn", "xdec", "pax", "spnew", "spold", "gl", "rh")
+PARSE_OPS = ("num", "puint", "pint", "hex", "b64", "split", "dfn", "xdec", "pax", "spnew", "spold", "gl", "rh", "ms")
 
 
 def check_parsers(ctx, stats):
@@ -788,6 +831,8 @@ def check_parsers(ctx, stats):
     for l, a, b in zip(lines, impl, model):
         op = l.split()[0]
         k = "%s:%s" % (op, " ".join(b.split()[:2]) if b.startswith("fail") else b.split()[0])
+        if op == "ms":
+            k = "ms:ok" if "end=eof" in b else "ms:fail " + (b.split("end=")[-1] if "end=" in b else b[3:])
         hist[k] = hist.get(k, 0) + 1
         if b in ("oob", "spin"):
             bounds += 1
@@ -795,6 +840,12 @@ def check_parsers(ctx, stats):
             continue
         if not same_answer(op, a, b):
             mism.append((l, a, b))
+    ms_oob = [(l, a, b) for l, a, b in mism if a.startswith("ms outside-buffer")]
+    for l, a, b in ms_oob[:3]:
+        ctx.violation("ms-oob:" + vlib.sha(l)[:12], "tar member stream (strm_get_buffered_data) hands out a range that does not lie inside "
+                      "its buffer: %s (model: %s); request sizes %s" % (a, b[:160], l.split()[2]),
+                      {"unit": "parse", "line": l, "impl": a, "model": b})
+    mism = [m for m in mism if not m[1].startswith("ms outside-buffer")] + ms_oob[3:]
     for l, a, b in mism[:8]:
         if b in ("oob", "spin"):
             # the model says the code leaves its buffer / does not stop, the real code answered under ASan: the model is wrong
@@ -830,7 +881,15 @@ def check_parsers(ctx, stats):
             nbytes, lim + 1, l[:200]), {"unit": "parse", "line": l, "impl": "max %d" % nbytes})
     # every op must have been answered both ways (accepting and rejecting) by the model: a generator that only produces
     # rejected inputs compares nothing
+    # ms: the generators must have reached a hole with every block-sized request, and the 4096-byte clamp
+    ms_pairs = [(l, b) for l, b in zip(lines, model) if l.startswith("ms ")]
+    ms_clamped = sum(1 for l, b in ms_pairs if "end=eof" in b and re.search(r"sizes=(\S*,)?4096x\d", b) and int(l.split()[2].split(",")[0]) > 4096)
+    infra(ms_clamped >= 40 and any(b == "ms hdr-fail" for _, b in ms_pairs) and
+          all(any(l.split()[2] == str(bs) and "4096x" in b for l, b in ms_pairs) for bs in MS_BLOCKS if bs > 4096),
+          "ms: the generated sparse members did not reach a hole with every request size (%d clamped)" % ms_clamped)
     for op in PARSE_OPS:
+        if op == "ms":
+            continue
         oks = sum(v for k, v in hist.items() if k == op + ":ok")
         infra(oks > 0, "parser units: no accepted input for op %s" % op)
         if op != "gl":
@@ -841,9 +900,11 @@ def check_parsers(ctx, stats):
                       "get_line_inputs_judged_by_the_specification": len(small_gl), "get_line_specification_violations": len(gl_bad),
                       "read_header_streams_with_allocation_monitor": len(rh_lines), "largest_allocation_seen": max((int(a.split()[1]) for a in mx), default=0),
                       "allocation_limit_violations": len(big_alloc),
+                      "member_stream_runs": len(ms_pairs), "member_stream_runs_request_above_hole_buffer_in_a_hole": ms_clamped,
+                      "member_stream_ranges_outside_the_buffer": len(ms_oob),
                       "samples": [{"line": lines[i][:200], "impl": impl[i][:200], "model": model[i][:200]} for i in (0, len(lines) // 2, len(lines) - 1)]}
     nontriv = sum(v for k, v in hist.items() if not k.endswith(":ok"))
-    return len(lines) + len(small_gl) + len(rh_lines), nontriv, len(mism) + len(crashes) + len(gl_bad) + len(big_alloc)
+    return len(lines) + len(small_gl) + len(rh_lines), nontriv, len(mism) + len(ms_oob[:3]) + len(crashes) + len(gl_bad) + len(big_alloc)
 
 
 # ---------------------------------------------------------------------------------------------------------
@@ -1017,6 +1078,33 @@ def check_tools(ctx, stats):
         for _ in range(ncor):
             tjob("z:%s:corrupt" % codec, TL.corrupt_stream(rng, cd))
 
+    # sparse members of every dialect x every block size tar2sqfs can be told to use: holes smaller than / around / larger
+    # than the block at the start / in the middle / at the end; the content read back must be the independent expansion
+    sjobs = []                                           # (label, archive, options, expected content)
+    for dialect in TL.SPARSE_DIALECTS:
+        for bs in MS_BLOCKS:
+            for hole in (rng.choice([1, 2, 511, 4095, 4096, 4097]), bs + rng.choice([-1, 0, 1]),
+                         rng.choice([2 * bs + rng.randrange(1, 70000), (3 << 20) + rng.randrange(0, 9000), 4 * bs + 1])):
+                where = rng.choice(["start", "middle", "end"])
+                arch, want, _, _ = TL.tar_sparse_holes(rng, dialect, hole, where)
+                opts = ["-b", str(bs)] + rng.choice([[], [], ["-j", "1"], ["-c", "gzip"], ["-T"]])
+                zs = rng.random()
+                if zs < 0.15:
+                    arch = TL.compress_variants(arch)[rng.choice(["gz", "xz", "bz2"])]
+                sjobs.append(("sparse:%s:b%d:%s:%d" % (dialect, bs, where, hole), arch, opts, want))
+    if not q:
+        for _ in range(600):
+            dialect, bs = rng.choice(TL.SPARSE_DIALECTS), rng.choice(MS_BLOCKS)
+            hole = rng.choice([1, 4096, 4097, bs - 1, bs, bs + 1, 131072, 131073, 2 * bs + 1, rng.randrange(1, 6 << 20)])
+            where = rng.choice(["start", "middle", "end"])
+            arch, want, _, _ = TL.tar_sparse_holes(rng, dialect, hole, where, rng.choice([None, None, 140000]))
+            sjobs.append(("sparse:%s:b%d:%s:%d" % (dialect, bs, where, hole), arch, ["-b", str(bs)], want))
+    # members that merely *declare* a huge size (a few hundred bytes of input): the packer must not work in proportion to
+    # the declared size. CPU-time limit, not wall clock.
+    djobs = [("declared:2^%d:%s" % (e, dialect), TL.tar_declared_size(dialect, 1 << e), e)
+             for e, dialect in ((40, "pax01"), (50, "old"), (60, "pax10"), (60, "pax00"))]
+    default_bs = 131072
+
     gjobs = []                                           # (label, pack, sort, xattr, mode, must_accept)
     def gjob(label, pack, sort=None, xattr=None, mode="D", must_accept=None):
         gjobs.append((label, pack, sort, xattr, mode, must_accept))
@@ -1073,7 +1161,10 @@ def check_tools(ctx, stats):
     with ThreadPoolExecutor(max_workers=jobs(ctx)) as ex:
         tres = list(ex.map(lambda j: T.run_tar(j[1], j[2], opts=j[3], must_reject=j[4]), tjobs))
         gres = list(ex.map(lambda j: T.run_gen(j[1], j[2], j[3], mode=j[4], must_accept=j[5]), gjobs))
-    infra(len(tres) == len(tjobs) and len(gres) == len(gjobs), "tool level: results missing")
+        sres = list(ex.map(lambda j: T.run_tar_content(j[1], j[2], b"sp.bin", j[3], [b"before", b"zz-after"]), sjobs))
+        dres = list(ex.map(lambda j: T.run_tar_declared(j[1]), djobs))
+    infra(len(tres) == len(tjobs) and len(gres) == len(gjobs) and len(sres) == len(sjobs) and len(dres) == len(djobs),
+          "tool level: results missing")
     hist, shown = {}, {}
     nviol = 0
     for job, res in zip(tjobs, tres):
@@ -1088,6 +1179,43 @@ def check_tools(ctx, stats):
                 ctx.violation(key, what, {"unit": "tool-tar", "label": job[0], "data_b64": base64.b64encode(job[1]).decode(),
                                           "expect_members": [m.decode() for m in job[2]] if job[2] else None,
                                           "opts": list(job[3]), "must_reject": job[4]})
+    for job, res in zip(sjobs, sres):
+        k = "tar sparse -b %s → exit %s" % (job[2][1], res["rc"] if res["rc"] in (0, "timeout") else "!=0")
+        hist[k] = hist.get(k, 0) + 1
+        for clause, detail in res["bad"]:
+            nviol += 1
+            fam = "tool-sparse:" + clause
+            shown[fam] = shown.get(fam, 0) + 1
+            if shown[fam] <= 3:
+                ctx.violation((crash_key(detail) if clause == "no-crash" else None) or "tool-sparse:%s:%s" % (clause, vlib.sha(job[1])[:12]),
+                              "%s [%s, tar2sqfs %s]: %s" % (clause, job[0], " ".join(job[2]), san_head(detail) if clause == "no-crash" else detail),
+                              {"unit": "tool-sparse", "label": job[0], "data_b64": base64.b64encode(job[1]).decode(), "opts": job[2],
+                               "want_sha": vlib.sha(job[3]), "want_len": len(job[3]), "want_b64z": base64.b64encode(zlib.compress(job[3], 9)).decode()})
+    infra(sum(1 for r in sres if r["rc"] == 0 and not r["bad"]) >= len(sres) * 3 // 4 or nviol > 0,
+          "tool level: most well-formed sparse archives were not packed and compared")
+    slow_declared = []
+    for job, res in zip(djobs, dres):
+        k = "tar %s → %s" % (job[0].rsplit(":", 1)[0], res["outcome"])
+        hist[k] = hist.get(k, 0) + 1
+        for clause, detail in res["bad"]:
+            nviol += 1
+            if clause == "terminates":
+                slow_declared.append((job, detail))
+            else:
+                ctx.violation("tool-declared:%s:%s" % (clause, vlib.sha(job[1])[:12]), "%s [%s]: %s" % (clause, job[0], detail),
+                              {"unit": "tool-declared", "label": job[0], "data_b64": base64.b64encode(job[1]).decode()})
+    # two findings: sizes no inode can carry (more than 2^29 blocks: must be refused before packing starts) and sizes that
+    # can be stored (the work is still proportional to what is declared)
+    for key, sel, text in ((TL.KEY_DECLARED_BEYOND, lambda e: (1 << e) // default_bs > TL.MAX_FILE_BLOCKS,
+                            "that no inode can carry (more than 2^29 blocks; set_block_size would fail with SQFS_ERROR_OVERFLOW in the end)"),
+                           (TL.KEY_DECLARED_SIZE, lambda e: (1 << e) // default_bs <= TL.MAX_FILE_BLOCKS, "that an inode can carry")):
+        slow = [(j, d) for j, d in slow_declared if sel(j[2])]
+        if slow:
+            job, detail = slow[0]
+            ctx.violation(key, "tar2sqfs works in proportion to the size a sparse member *declares*, not to the length of its input, for "
+                          "a size %s: %s (%s)" % (text, detail, ", ".join(j[0] for j, _ in slow)),
+                          {"unit": "tool-declared", "label": job[0], "data_b64": base64.b64encode(job[1]).decode(),
+                           "all_slow": [j[0] for j, _ in slow]})
     for job, res in zip(gjobs, gres):
         outcome = "exit %s" % (res["rc"] if res["rc"] in (0, "timeout") else "!=0")
         gcls = job[0].split("/")[0].split(":")[0] + ("[%s]" % job[4] if job[4] != "D" else "")
@@ -1119,13 +1247,14 @@ def check_tools(ctx, stats):
                 ctx.violation(key, "%s [%s]: %s" % (clause, job[0], san_head(detail) if clause == "no-crash" else detail),
                               {"unit": "tool-gen", "label": job[0], "pack": job[1], "sort": job[2], "xattr": job[3], "mode": job[4],
                                "must_accept": job[5]})
-    stats["tools"] = {"tar_jobs": len(tjobs), "gensquashfs_jobs": len(gjobs), "timeout_s": TL.TIMEOUT, "wall_s": round(time.time() - t0, 1),
+    stats["tools"] = {"tar_jobs": len(tjobs), "gensquashfs_jobs": len(gjobs), "sparse_content_jobs": len(sjobs),
+                      "declared_size_probes": {j[0]: r["outcome"] for j, r in zip(djobs, dres)}, "declared_size_cpu_limit_s": TL.DECLARED_CPU_S, "timeout_s": TL.TIMEOUT, "wall_s": round(time.time() - t0, 1),
                       "outcome_histogram": dict(sorted(hist.items())), "oracle_failures": nviol, "timeouts_not_reproduced_in_isolation": T.slow,
                       "listing_refused_for_line_feed_then_validated_independently": T.lf_refusals,
                       "samples": [{"label": tjobs[i][0], "tar2sqfs_exit": tres[i]["rc"], "stderr": tres[i].get("stderr", "")[-120:]}
                                   for i in (0, len(tjobs) // 3, len(tjobs) // 2, len(tjobs) - 1)]}
     nontriv = sum(1 for r in tres if r["rc"] not in (0, None)) + sum(1 for r in gres if r["rc"] != 0)
-    return len(tjobs) + len(gjobs), nontriv, nviol
+    return len(tjobs) + len(gjobs) + len(sjobs) + len(djobs), nontriv, nviol
 
 
 # ---------------------------------------------------------------------------------------------------------
@@ -1198,6 +1327,21 @@ def replay(ctx, path):
         print("tar2sqfs exit:", res.get("rc"), "stderr:", res.get("stderr", "")[-300:])
         for clause, detail in res["bad"]:
             print("violated:", clause, "-", san_head(detail) if clause == "no-crash" else detail)
+        return 1 if res["bad"] else 0
+    if rp.get("unit") == "tool-sparse" and "data_b64" in rp:
+        T = TL.Tools(ctx)
+        want = zlib.decompress(base64.b64decode(rp["want_b64z"]))
+        res = T.run_tar_content(base64.b64decode(rp["data_b64"]), rp.get("opts") or [], b"sp.bin", want, [b"before", b"zz-after"], timeout=TL.TIMEOUT * 3)
+        print("label :", rp.get("label"), "tar2sqfs", " ".join(rp.get("opts") or []), "exit:", res["rc"], "stderr:", res.get("stderr", "")[-300:])
+        for clause, detail in res["bad"]:
+            print("violated:", clause, "-", san_head(detail) if clause == "no-crash" else detail)
+        return 1 if res["bad"] else 0
+    if rp.get("unit") == "tool-declared" and "data_b64" in rp:
+        T = TL.Tools(ctx)
+        res = T.run_tar_declared(base64.b64decode(rp["data_b64"]))
+        print("label :", rp.get("label"), "outcome:", res["outcome"], "cpu limit %ds" % TL.DECLARED_CPU_S, "stderr:", res.get("stderr", "")[-300:])
+        for clause, detail in res["bad"]:
+            print("violated:", clause, "-", detail)
         return 1 if res["bad"] else 0
     if rp.get("unit") == "tool-gen":
         T = TL.Tools(ctx)
